@@ -74,6 +74,8 @@ class Built:
         self.fresh_prob = (shape_seed % 3) * 0.4      # 0, .4, .8: how often an equal but distinct instance is built
 
     def cls(self, t):
+        if self.cfg.get('twins'):
+            return U.TwinT
         y = self.cfg['typ'][t - 1]
         mp = self.cfg['maxpar'][y - 1]
         fmt = (self.cfg.get('tfmt') or ['pickle'] * 9)[y - 1]
@@ -87,6 +89,9 @@ class Built:
 
     def make(self, t, fresh=False):
         """An instance of task t; dependencies placed in fields a / b in a per-task fixed shape."""
+        if self.cfg.get('twins'):
+            import copy
+            return U.TwinT(x=copy.deepcopy(U.TWIN_VALUES[t - 1]))
         if not fresh and t in self.canon:
             return self.canon[t]
         deps = self.cfg['deps'][t - 1]
